@@ -378,6 +378,25 @@ def run(ctx):
     ctx.check(r6, len(al) == 1 and nw.canon(al[0]["rhs"], subst=False).startswith("__ckd_calloc__(h->size, 32"), key(nw, "alloc"), nw.where(nw.root), "table is not allocated with h->size entries of sizeof(hash_entry_t)")
 
     # ---- R7 wrapper agreement -----------------------------------------------------------------------------
+    # what lookup hands back, path by path: an entry that is not known to be NULL was accepted under equal length
+    # and an equal comparison of its bytes - no other test (identical key pointer, equal hash) stands in for them
+    nacc = 0
+    for pt in symx.run_paths(lookup, P):
+        if pt.ret is None:
+            continue
+        R = lin.p_str(pt.ret)
+        if R in ("0", "") or any(ev_[0] == "branch" and symx.plain(ev_[1]) == symx.plain(("nz", R)) and not ev_[2] for ev_ in pt.events):
+            continue
+        nacc += 1
+        lk_ = symx.plain(("==",) + tuple(sorted((symx.field_of(R, "len"), "len"))))
+        len_ok = any(ev_[0] == "branch" and symx.plain(ev_[1]) == lk_ and ev_[2] for ev_ in pt.events)
+        cmp_ok = any(ev_[0] == "branch" and ev_[1][0] == "nz" and re.match(r"^keycmp_(no)?case\(", str(ev_[1][1])) and symx.plain(("nz", str(ev_[1][1]).split("(", 1)[1].split(",")[0])) == symx.plain(("nz", R)) and not ev_[2] for ev_ in pt.events)
+        if not (len_ok and cmp_ok):
+            ctx.bad(r6, key(lookup, "accept-only-equal"), lookup.where(lookup.root), "lookup can hand back `%s` without having found its length equal to the probe's and its bytes equal under the table's comparator (%s): another test stands in for the comparison, and two different keys are one entry" % (R, "length not tested" if not len_ok else "bytes not compared"))
+            break
+    else:
+        ctx.check(r6, nacc >= 2, key(lookup, "accept-only-equal"), lookup.where(lookup.root), "no accepting path of lookup found (%d)" % nacc, "%d accepting paths" % nacc)
+
     r7 = ctx.rule("TWIN.wrappers", "all public entry points hash the same key they pass on, with the length of that key, and select insert/replace correctly", floor=8)
     table = {
         "hash_table_enter": ("enter", "str", "0"), "hash_table_replace": ("enter", "str", "1"),
